@@ -59,6 +59,10 @@ QUADS = [("x_ov", "x_ov", "x_oo", "x_vv"), ("f_ov", "t1", "x_oo", "x_oo"),
          ("x_ov", "x_ov", "x_ov", "x_ov")]
 
 
+HYPER_QUADS = [("x_o", "x_oo", "x_oo", "x_o"), ("x_o", "x_oo", "x_oo", "x_ov"),
+               ("x_o", "x_ov", "x_ov", "x_ov")]
+
+
 def bounds(tier):
     return {"max_objects": 4, "limits_itmd": [None, 1, 2, 4],
             "limits_simultaneous": [None, 2, 3]}
@@ -101,6 +105,16 @@ def generate(tier):
             if max(gen.term_indices(d).values()) > 2:
                 continue
             if len(gen.einstein_target(d)) > (2 if tier == "quick" else 4):
+                continue
+            add(d)
+    # hyper-contractions over four objects: indices on three objects, so
+    # that a sub-group of the objects can share an index with an object
+    # outside the group (A_i B_ij C_ij D_j ...)
+    for sh in HYPER_QUADS:
+        for d in gen.terms(sh):
+            if max(gen.term_indices(d).values()) > 3:
+                continue
+            if len(gen.einstein_target(d)) > (1 if tier == "quick" else 3):
                 continue
             add(d)
     # spin labelled
